@@ -234,3 +234,71 @@ def cluster_orientation(S):
         for ax in range(3):
             S.claim_eq(f'rotated[{i},{ax}]', r1[i][ax], exp[ax])
             S.claim_eq(f'rigidcluster[{i},{ax}]', r2[i][ax], exp[ax])
+
+
+@obligation('C05.rotation.lens_quadrature_step', functions=['holopy.scattering.theory.lens.Lens.raw_fields',
+                                                           'holopy.scattering.theory.lens.Lens._compute_integral',
+                                                           'holopy.scattering.theory.lens.Lens._compute_integrand',
+                                                           'holopy.scattering.theory.lens.Lens._integrand_prefactor',
+                                                           'holopy.scattering.theory.lens.Lens._integrand_prll',
+                                                           'holopy.scattering.theory.lens.Lens._integrand_perp',
+                                                           'holopy.scattering.theory.lens.Lens._calc_scattering_matrix',
+                                                           'holopy.scattering.theory.lens.Lens._transform_integral_from_lr_to_xyz',
+                                                           'holopy.scattering.theory.lens.Lens._compute_field_phase'],
+            stubs=['wrapped theory raw_scat_matrs := uninterpreted S(theta) (sphere: independent of phi)'],
+            angle_mode='atoms', timeout_s=240, nvalid=2, cost=4,
+            bounds='Lens wrapper with 2 symbolic theta nodes and 4 equispaced phi nodes (phi0 + j pi/2, symbolic phi0, '
+                   'equal weights): rotating the detector point and the polarization by one quadrature step (pi/2) '
+                   'rotates the field by pi/2 - the rotation covariance the equispaced phi quadrature does have; '
+                   '1 symbolic detector point (k rho, phi, k z)')
+def rotation_lens_step(S):
+    import holopy.scattering.theory.lens as lens_mod
+    from holopy.scattering.theory.lens import Lens
+    mc.setup(S)
+    if S.sym:
+        shim_np(S, lens_mod)
+    Sf = [[S.cfunc(f'S{a}{b}', 1) for b in range(2)] for a in range(2)]
+
+    class Inner:
+        def can_handle(self, s):
+            return True
+
+        def raw_scat_matrs(self, scatterer, pos, medium_wavevec, medium_index):
+            out = np.empty((pos.shape[1], 2, 2), dtype=object if S.sym else complex)
+            for i in range(pos.shape[1]):
+                for a in range(2):
+                    for b in range(2):
+                        out[i, a, b] = Sf[a][b](pos[1, i])
+            return out
+    lens = Lens.__new__(Lens)
+    lens.lens_angle = 0.8
+    lens.theory = Inner()
+    lens.quad_npts_theta, lens.quad_npts_phi = 2, 4
+    lens.use_numexpr = False
+    obj = object if S.sym else float
+    th = [S.angle(f'theta{i}', 0, 0.45) for i in range(2)]
+    phi0 = S.angle('phi0', 0, 0.5)
+    half_pi = S.pi / 2
+    lens._theta_pts = np.array(th, dtype=obj).reshape(-1, 1, 1)
+    lens._theta_wts = np.array([S.real(f'wt{i}', pos=True) for i in range(2)], dtype=obj).reshape(-1, 1, 1)
+    lens._costheta = np.cos(lens._theta_pts)
+    lens._sintheta = np.sin(lens._theta_pts)
+    for i in range(2):
+        S.assume(lens._costheta[i, 0, 0] > 0, 'cos(theta node) > 0 (node inside the aperture)')
+    lens._phi_pts = np.array([phi0 + j * half_pi for j in range(4)], dtype=obj).reshape(1, -1, 1)
+    w = S.real('wphi', pos=True)
+    lens._phi_wts = np.array([w, w, w, w], dtype=obj).reshape(1, -1, 1)
+    krho, phi, kz = S.real('krho', lo=0), S.angle('phi', 0, 2), S.real('kz')
+    alpha = S.angle('alpha', -1, 0.5)
+    S.assume(alpha > -S.pi)
+
+    def fields(ph, al):
+        pos = mc.positions(S, [krho], [ph], kz)
+        return lens.raw_fields(pos, Sphere(n=1.59, r=0.5, center=(0, 0, 0)), 7.0, 1.33, mc.pol_vector(S, al))
+    E = fields(phi, alpha)
+    Er = fields(phi + half_pi, alpha + half_pi)
+    S.observe('E', E)
+    # rotation by pi/2: (Ex, Ey) -> (-Ey, Ex)
+    S.claim_eq('Ex', Er[0, 0], -E[1, 0])
+    S.claim_eq('Ey', Er[1, 0], E[0, 0])
+    S.claim_eq('Ez', Er[2, 0], E[2, 0])
